@@ -288,6 +288,7 @@ def _git_history(r, tasks, n_ops, *, where_p=0.25, fail_p=0.0, flags_p=0.45, job
     branches = {}         # branch -> tip
     state = {"mode": "none", "head": None, "cur": None}
     cnum = [0]
+    tags = []
     exps = [t for t, d in tasks.items() if d["kind"] == "exp"]
 
     def new_commit(parents=None):
@@ -335,6 +336,12 @@ def _git_history(r, tasks, n_ops, *, where_p=0.25, fail_p=0.0, flags_p=0.45, job
                 other = r.choice([b for b in sorted(branches) if branches[b] != state["head"]] or [None])
                 if other:
                     new_commit(parents=[state["head"], branches[other]])
+            elif g < 0.95 and commits:
+                # a release tag on some commit: lightweight, or annotated (a tag object of its own)
+                tname = "v%d" % len(tags)
+                tags.append(tname)
+                ops.append({"op": "git", "action": "tag", "name": tname, "target": r.choice(commits + [state["head"]] if state["head"] else commits),
+                            "annotated": r.random() < 0.6})
             else:
                 ops.append({"op": "git", "action": "dirty", "value": r.choice([True, True, "staged", False])})
             continue
@@ -358,6 +365,7 @@ def _git_history(r, tasks, n_ops, *, where_p=0.25, fail_p=0.0, flags_p=0.45, job
                 pool += sorted(branches)
                 pool += [sim_hash(x) for x in commits] * 2
                 pool += [sim_hash(x)[:10] for x in commits]
+                pool += tags * 3
                 flags["at_least"] = r.choice(pool)
             else:
                 flags["again"] = True
